@@ -1,24 +1,31 @@
 """C15 -- HTML escaping neutralises all markup; URL and base64 codecs are exact inverses."""
-import os, re, base64, urllib.parse, itertools
+import os, re, base64, urllib.parse, itertools, html.parser
 import vlib
 from vlib import hexs, unhex
 
 META = dict(
     property_id='C15',
     design_ref='DESIGN.md section 4, C15',
-    technique='Coq proof (induction + 256-point sweeps over source-generated leaf functions) + extracted-model correspondence',
+    technique='Coq proof (induction + 256/65536-point sweeps over source-generated loop bodies) + extracted-model correspondence',
     level_text=('Theorems in coq/C15/Props.v, for all byte strings: escape output has no < > quote chars, every & opens one of '
-                'five entities, unescape(escape s)=s, escape commutes with concatenation (all chunked/stream paths), a failing '
-                'sink gets a prefix; urlencode alphabet and urldecode(urlencode s)=s, urldecode total and non-expanding; base64url '
-                'alphabet, decode(encode s)=s, exact encoded/decoded sizes. Leaf functions (escape switch, urlencode body, xdigit, '
-                'encode_8_to_6, alphabet table, size formulas) are regenerated from the current source by tools/cxx2v.py and proved '
-                'equal to the model leafs (256-point sweeps; size formulas for all n<2^30). The loop structure around the leafs is '
-                'tied by running the extracted model and every C++ output path on the same inputs.'),
-    level_note=('Trusted: Coq kernel + vm_compute; cxx2v translator and clang AST; ExtrOcamlBasic extraction; the C++ loops around '
-                'the generated leaf functions are modelled by hand and tied by correspondence (exhaustive for length<=2), not verified; '
-                'form-widget rendering (src/form.cpp) is tied by correspondence only: 18 value/id/label/message slots x 4 render modes.'),
+                'five entities, unescape(escape s)=s, escape commutes with concatenation, a failing sink gets a prefix; a value streamed '
+                'in any pieces through the 128-byte filter buffer of the template filters = the filter of the whole value; a rendered '
+                'attribute/text slot cannot be terminated by its value; urlencode alphabet, urldecode(urlencode s)=s, exact behaviour of '
+                'urldecode on every malformed escape, re-encoding stability; base64url alphabet, decode(encode s)=s, exact sizes, '
+                'canonical-form characterisation (accepted string is an encoding iff canonical; non-canonical accepted strings exhibited). '
+                'Tie: the loop BODIES of escape (string and streambuf overloads), urlencode_impl, urldecode (with its two-byte lookahead), '
+                'bencode, bdecode, encode_8_to_6, xdigit, the table and the size formulas are regenerated from the current source by '
+                'tools/cxx2v.py (some after a textual pre-processing step in checks/C15.py) and the loops built from them are proved equal '
+                'to the model functions for all inputs.'),
+    level_note=('Trusted: Coq kernel + vm_compute; cxx2v translator and clang AST; the textual pre-processor prep_tu of checks/C15.py '
+                '(occurrence-counted rewrites, listed in docs/C15.md section 5) incl. its 3-line model of sscanf("%x") on two hex digits; '
+                'the loop skeletons of coq/C15/LinkLoops.v (how a body is iterated); ExtrOcamlBasic extraction. By correspondence only: '
+                'the failing-sink behaviour of escape(streambuf), filterbuf/steal_buffer (model fb_run vs real filters on pieces), the '
+                'std::string wrappers, form-widget rendering (slot content, slot context and complete HTML of 19 slots x 4 render modes).'),
 )
 
+
+C15X_TU = os.path.join(vlib.WORK, 'C15', 'c15x.cpp')   # written by prep_tu below on every run
 GEN = {
     'Gen_b64': dict(src='src/base64.cpp',
                     arrays=[('encode_6_to_8', 'g_b64_alphabet')],
@@ -27,8 +34,125 @@ GEN = {
     'Gen_util': dict(src='src/util.cpp',
                      functions=[('xdigit', 'g_xdigit')],
                      transducers=[('escape', 'g_escape_step'), ('urlencode_impl', 'g_urlencode_step')]),
+    'Gen_c15x': dict(src=C15X_TU,
+                     arrays=[('encode_6_to_8', 'gx_alphabet')],
+                     functions=[('xdigit', 'gx_xdigit'), ('c15_hexv', 'gx_hexv'), ('c15_sscanf_hex2', 'gx_hex2'),
+                                ('gx_ud_emit', 'gx_ud_emit'), ('gx_ud_skip', 'gx_ud_skip'), ('encode_8_to_6', 'gx_dec6')]
+                               + [('gx_benc_o%d' % k, 'gx_benc_o%d' % k) for k in range(4)] + [('gx_benc_n', 'gx_benc_n')]
+                               + [('gx_bdec_o%d' % k, 'gx_bdec_o%d' % k) for k in range(3)] + [('gx_bdec_n', 'gx_bdec_n')],
+                     transducers=[('gx_escape_sb', 'gx_escape_sb_step')]),
 }
 SPECIAL = b'<>&"\''
+
+# ---- pre-processor: loop bodies that are outside the cxx2v subset are rewritten (textually, with exact occurrence counts) into
+# loop-free leaf functions / a per-byte transducer in a scratch translation unit; any change of shape of the source raises
+# PrepError = broken tie.  What each rewrite assumes is listed in docs/C15.md section 5.
+class PrepError(Exception):
+    pass
+
+def _body(txt, header_re, what):
+    """text between the braces of the first function whose header matches header_re"""
+    m = re.search(header_re, txt)
+    if not m:
+        raise PrepError('cannot find %s' % what)
+    i = txt.index('{', m.end() - 1)
+    depth, j = 0, i
+    while j < len(txt):
+        if txt[j] == '{':
+            depth += 1
+        elif txt[j] == '}':
+            depth -= 1
+            if depth == 0:
+                return txt[i + 1:j]
+        j += 1
+    raise PrepError('unbalanced braces in %s' % what)
+
+def _sub(pat, repl, txt, count, what):
+    out, n = re.subn(pat, repl, txt, flags=re.S)
+    if n != count:
+        raise PrepError('%s: expected %d occurrence(s) of /%s/, found %d (the source no longer has the shape the pre-processor understands)' % (what, count, pat, n))
+    return out
+
+def prep_tu(repo):
+    util = open(os.path.join(repo, 'src/util.cpp')).read()
+    b64 = open(os.path.join(repo, 'src/base64.cpp')).read()
+    util = re.sub(r'//[^\n]*', '', util)
+    b64 = re.sub(r'//[^\n]*', '', b64)
+    out = ['// GENERATED by checks/C15.py (prep_tu) from src/util.cpp and src/base64.cpp -- loop bodies rewritten into the cxx2v subset',
+           '#include <string>', '#include <stddef.h>', '#include <stdio.h>', '#include "http_protocol.h"',
+           'using cppcms::http::protocol::xdigit;', '']
+    # ---- escape(begin,end,streambuf&): sputn("lit",n)==n / sputc(c)!=EOF  ->  append to a string
+    esc = _body(util, r'int\s+escape\s*\(\s*char const \*begin\s*,\s*char const \*end\s*,\s*std::streambuf\s*&\s*output\s*\)\s*\{', 'escape(streambuf)')
+    def sputn(m):
+        lit, n, k = m.group(1), int(m.group(2)), int(m.group(3))
+        if '\\' in lit or n != k or n > len(lit):
+            raise PrepError('escape(streambuf): sputn(%r,%d)==%d is not "write the whole literal"' % (lit, n, k))
+        return 'out += "%s";' % lit[:n]
+    esc, n = re.subn(r'ok\s*=\s*output\.sputn\(\s*"([^"]*)"\s*,\s*(\d+)\s*\)\s*==\s*(\d+)\s*;', sputn, esc)
+    if n != 5:
+        raise PrepError('escape(streambuf): expected 5 sputn entities, found %d' % n)
+    esc = _sub(r'ok\s*=\s*output\.sputc\(\s*c\s*\)\s*!=\s*EOF\s*;', 'out += c;', esc, 1, 'escape(streambuf) default')
+    esc = _sub(r'bool\s+ok\s*;', '', esc, 1, 'escape(streambuf) ok')
+    esc = _sub(r'if\s*\(\s*!\s*ok\s*\)\s*return\s*-1\s*;', '', esc, 1, 'escape(streambuf) failure exit')
+    out += ['int gx_escape_sb(char const *begin,char const *end,std::string &out)', '{', esc, '}', '']
+    # ---- urldecode: body of the for loop -> (emitted byte or -1, extra bytes consumed)
+    ud = _body(util, r'std::string\s+urldecode\s*\(\s*char const \*begin\s*,\s*char const \*end\s*\)\s*\{', 'urldecode')
+    m = re.search(r'for\s*\(\s*;\s*begin\s*<\s*end\s*;\s*begin\+\+\s*\)\s*\{', ud)
+    if not m:
+        raise PrepError('urldecode: loop header changed')
+    loop = _body(ud[m.start():], r'for\s*\([^)]*\)\s*\{', 'urldecode loop')
+    loop = _sub(r'char\s+c\s*=\s*\*begin\s*;', '', loop, 1, 'urldecode per-byte variable')
+    loop = _sub(r'end\s*-\s*begin', 'avail', loop, 1, 'urldecode lookahead test')
+    loop = _sub(r'http::protocol::xdigit', 'xdigit', loop, 2, 'urldecode xdigit')
+    loop = _sub(r'char\s+buf\[3\]\s*=\s*\{\s*begin\[1\]\s*,\s*begin\[2\]\s*,\s*0\s*\}\s*;\s*int\s+value\s*;\s*sscanf\(\s*buf\s*,\s*"%x"\s*,\s*&value\s*\)\s*;',
+                'int value = c15_sscanf_hex2(begin[1],begin[2]);', loop, 1, 'urldecode sscanf')
+    loop = _sub(r'begin\[1\]', 'b1', loop, 2, 'urldecode begin[1]')
+    loop = _sub(r'begin\[2\]', 'b2', loop, 2, 'urldecode begin[2]')
+    emit = _sub(r'result\s*\+=\s*([^;]+);', r'return (unsigned char)(\1);', loop, 3, 'urldecode emissions')
+    emit = _sub(r'begin\s*\+=\s*2\s*;', ';', emit, 1, 'urldecode skip')
+    skip = _sub(r'result\s*\+=\s*([^;]+);', ';', loop, 3, 'urldecode emissions')
+    skip = _sub(r'begin\s*\+=\s*2\s*;', 'return 2;', skip, 1, 'urldecode skip')
+    if re.search(r'\b(begin|end|result)\b', emit + skip):
+        raise PrepError('urldecode: loop body uses begin/end/result in a way the pre-processor does not understand')
+    out += ['// model of sscanf(buf,"%x",&value) on a buffer of exactly two hex digits (libc; tied by the exhaustive %XY correspondence cases)',
+            'int c15_hexv(char c) { return c<=\'9\' ? c-\'0\' : (c<=\'F\' ? c-\'A\'+10 : c-\'a\'+10); }',
+            'int c15_sscanf_hex2(char a,char b) { return c15_hexv(a)*16+c15_hexv(b); }',
+            'int gx_ud_emit(char c,long avail,char b1,char b2)', '{', emit, 'return -1;', '}',
+            'int gx_ud_skip(char c,long avail,char b1,char b2)', '{', skip, 'return 0;', '}', '']
+    # ---- base64: table, encode_8_to_6, bencode -> one function per output byte + count; same for bdecode
+    m = re.search(r'const\s+unsigned\s+char\s+encode_6_to_8\s*\[\]\s*=\s*"[^"]*"\s*;', b64)
+    if not m:
+        raise PrepError('base64: table encode_6_to_8 not found')
+    out += [m.group(0)]
+    d6 = _body(b64, r'inline\s+unsigned\s+char\s+encode_8_to_6\s*\(\s*unsigned\s+char\s+c\s*\)\s*\{', 'encode_8_to_6')
+    out += ['unsigned char encode_8_to_6(unsigned char c)', '{', d6, '}']
+    be = _body(b64, r'bencode\s*\(\s*unsigned const char in\[3\]\s*,\s*unsigned char out\[4\]\s*,\s*size_t len\s*\)\s*\{', 'bencode')
+    be = re.sub(r'\bin\[\s*(\d)\s*\]', r'in\1', be)
+    if len(re.findall(r'out\[\s*\d\s*\]\s*=', be)) != 6 or re.search(r'\bin\b|\bfor\b|\bwhile\b', be):
+        raise PrepError('bencode: shape changed')
+    for k in range(4):
+        t = re.sub(r'return\s+\d+\s*;', 'return -1;', be)
+        t = re.sub(r'out\[\s*%d\s*\]\s*=\s*([^;]+);' % k, r'return \1;', t)
+        t = re.sub(r'out\[\s*\d\s*\]\s*=\s*([^;]+);', ';', t)
+        out += ['int gx_benc_o%d(unsigned char in0,unsigned char in1,unsigned char in2,size_t len)' % k, '{', t, '}']
+    t = re.sub(r'out\[\s*\d\s*\]\s*=\s*([^;]+);', ';', be)
+    out += ['size_t gx_benc_n(unsigned char in0,unsigned char in1,unsigned char in2,size_t len)', '{', t, '}']
+    bd = _body(b64, r'bdecode\s*\(\s*unsigned const char in8\[4\]\s*,\s*unsigned char out\[3\]\s*,\s*size_t len\s*\)\s*\{', 'bdecode')
+    bd = _sub(r'unsigned\s+char\s+in\[4\]\s*=\s*\{\s*0\s*\}\s*;\s*for\s*\(\s*unsigned\s+i\s*=\s*0\s*;\s*i\s*<\s*len\s*;\s*i\+\+\s*\)\s*in\[i\]\s*=\s*encode_8_to_6\(\s*in8\[i\]\s*\)\s*;',
+              ' '.join('unsigned char in%d = %d < len ? encode_8_to_6(x%d) : 0;' % (i, i, i) for i in range(4)), bd, 1, 'bdecode input loop')
+    bd = re.sub(r'\bin\[\s*(\d)\s*\]', r'in\1', bd)
+    if len(re.findall(r'out\[\s*\d\s*\]\s*=', bd)) != 3 or re.search(r'\bin\b|\bin8\b|\bfor\b|\bwhile\b', bd):
+        raise PrepError('bdecode: shape changed')
+    for k in range(3):
+        t = re.sub(r'return\s+\d+\s*;', 'return -1;', bd)
+        t = re.sub(r'out\[\s*%d\s*\]\s*=\s*([^;]+);' % k, r'return \1;', t)
+        t = re.sub(r'out\[\s*\d\s*\]\s*=\s*([^;]+);', ';', t)
+        out += ['int gx_bdec_o%d(unsigned char x0,unsigned char x1,unsigned char x2,unsigned char x3,size_t len)' % k, '{', t, '}']
+    t = re.sub(r'out\[\s*\d\s*\]\s*=\s*([^;]+);', ';', bd)
+    out += ['size_t gx_bdec_n(unsigned char x0,unsigned char x1,unsigned char x2,unsigned char x3,size_t len)', '{', t, '}']
+    return '\n'.join(out) + '\n'
+
+
 
 
 def gen_cases(ctx):
@@ -76,9 +200,31 @@ def gen_cases(ctx):
         cases.append('benc ' + hexs(s))
     # malformed decoder input
     ua = [b'%', b'+', b'0', b'a', b'F', b'g', b'\x80', b' ']
-    for ln in range(0, 5):
+    for ln in range(0, 6):
         for t in itertools.product(ua, repeat=ln):
             cases.append('udec ' + hexs(b''.join(t)))
+    # every %XY (all 65536 byte pairs after the percent sign): the xdigit test and the sscanf value; and the same in the middle
+    for x in range(256):
+        for y in range(256):
+            cases.append('udec 25%02x%02x' % (x, y))
+    for _ in range(ctx.scale(4000, 60000)):
+        x, y = rng.choice(b'09afAF/:@G`g%+\x00\xff'), rng.choice(b'09afAF/:@G`g%+\x00\xff')
+        pre = bytes(rng.choice(b'a%+') for _ in range(rng.randrange(0, 3)))
+        suf = bytes(rng.choice(b'a%+1F') for _ in range(rng.randrange(0, 3)))
+        cases.append('udec ' + hexs(pre + b'%' + bytes([x, y]) + suf))
+    # base64 tails: every last symbol (canonical and with stray bits) after 1 or 2 symbols, with 0..2 full blocks in front
+    for last in alpha:
+        for mid in alpha:
+            for first in (alpha if not ctx.quick() else [rng.choice(alpha) for _ in range(4)]):
+                cases.append('bdec ' + hexs(bytes([first, mid, last])))
+        for k in range(ctx.scale(6, 60)):
+            blocks = bytes(rng.choice(alpha) for _ in range(4 * rng.randrange(0, 3)))
+            cases.append('bdec ' + hexs(blocks + bytes([rng.choice(alpha), last])))
+            cases.append('bdec ' + hexs(blocks + bytes([rng.choice(alpha), rng.choice(alpha), last])))
+            # one byte outside the alphabet somewhere (decodes like the letter A)
+            t = bytearray(blocks + bytes([rng.choice(alpha), rng.choice(alpha), last]))
+            t[rng.randrange(len(t))] = rng.choice(b'=+/ .~\x00\x80\xff@[`{')
+            cases.append('bdec ' + hexs(bytes(t)))
     for _ in range(ctx.scale(3000, 40000)):
         ln = rng.randrange(0, 40)
         s = bytes(rng.choice(alpha + b'=+/%\x00\xff ') for _ in range(ln))
@@ -92,6 +238,7 @@ def gen_cases(ctx):
         cases.append('esc ' + hexs(s))
         room = rng.randrange(0, 6 * ln + 2)
         cases.append('escs %d %s' % (room, hexs(s)))
+        cases.append('uencs %d %s' % (rng.randrange(0, 3 * ln + 2), hexs(s)))
     # values streamed through the filters in several pieces (the 128-byte filter buffer is the case split)
     edge = [0, 1, 2, 126, 127, 128, 129, 130, 255, 256, 257, 300]
     for op in ('esc', 'uenc', 'benc'):
@@ -100,12 +247,31 @@ def gen_cases(ctx):
                 tot = a + b + rng.choice([0, 1, 5, 128, 200])
                 s = bytes(rng.choice(SPECIAL + b'abc \x00\xff%+') for _ in range(tot))
                 cases.append('pcs %s %d,%d %s' % (op, a, b, hexs(s)))
+        # byte-wise put() across the buffer boundary, and a long write after bytes are already buffered
+        for cuts in (','.join(['1'] * 130), '127,' + ','.join(['1'] * 4), '128,1,1', '1,128', '5,300', '129', '127,1,1,127,1,1'):
+            tot = sum(int(x) for x in cuts.split(',')) + rng.choice([0, 1, 130])
+            s = bytes(rng.choice(SPECIAL + b'abc \x00\xff%+') for _ in range(tot))
+            cases.append('pcs %s %s %s' % (op, cuts, hexs(s)))
         for _ in range(ctx.scale(300, 5000)):
             k = rng.randrange(1, 6)
             cuts = [rng.choice(edge + [3, 17, 64]) for _ in range(k)]
             tot = sum(cuts) + rng.choice([0, 1, 127, 128, 129])
             s = bytes(rng.choice(SPECIAL + b'abc \x00\xff%+') for _ in range(min(tot, 1500)))
             cases.append('pcs %s %s %s' % (op, ','.join(map(str, cuts)), hexs(s)))
+    # the filters in front of a sink that fails after `room` bytes (rooms around the output length, the buffer size and inside entities)
+    for op in ('esc', 'uenc', 'benc'):
+        for _ in range(ctx.scale(500, 8000)):
+            k = rng.randrange(0, 4)
+            cuts = [rng.choice(edge + [3, 17, 64]) for _ in range(k)] or [0]
+            tot = min(sum(cuts) + rng.choice([0, 1, 5, 127, 128, 129]), 700)
+            s = bytes(rng.choice(SPECIAL + b'abc \x00\xff%+') for _ in range(tot))
+            L = len(py_encode(op, s))
+            room = max(0, rng.choice([0, 1, 2, 3, 5, L - 6, L - 2, L - 1, L, L + 1, 127, 128, 129, 130, 255, 256, 257, rng.randrange(0, L + 2)]))
+            cases.append('pcsf %s %d %s %s' % (op, room, ','.join(map(str, cuts)), hexs(s)))
+    for op in ('esc', 'uenc', 'benc'):
+        for v in (b'', b'a', b'<a href="x">', b'a b&c'):
+            cases.append('pcsb %s %s' % (op, hexs(v)))
+            cases.append('strf %s %s' % (op, hexs(v)))
     # form widgets: every value / id / label / message slot of every widget kind, both doctypes and both list layouts
     payloads = [b'', b'<', b'>', b'&', b'"', b"'", b'<script>alert(1)</script>', b'" onmouseover="x', b"' x='", b'&amp;', b'&#39;<',
                 b'a&b<c>d"e\'f', b'\x00<\xff>', b'</textarea><script>', b'</option></select><img src=x>', b'plain text']
@@ -121,6 +287,13 @@ def gen_cases(ctx):
                     # only then escaped - so only 7-bit NUL-free payloads have a defined expected rendering
                     pl = bytes(b for b in pl if 0 < b < 128)
                 cases.append('form %s %d %s' % (kind, mode, hexs(pl)))
+    # complete HTML of the single-slot widgets against the rendering skeleton of the model
+    for kind in FULL_KINDS:
+        for mode in range(4):
+            for pl in payloads:
+                if kind in MESSAGE_KINDS:
+                    pl = bytes(b for b in pl if 0 < b < 128)
+                cases.append('formfull %s %d %s' % (kind, mode, hexs(pl)))
     # long random strings (up to 64 KiB)
     for ln in [1000, 4096, 65535, 65536] if ctx.quick() else [1000, 4096, 65535, 65536, 65537, 100000, 262144]:
         s = bytes(rng.getrandbits(8) for _ in range(ln))
@@ -132,8 +305,9 @@ def gen_cases(ctx):
 
 FORM_KINDS = ['text_value', 'text_value_input', 'textarea_value', 'hidden_value', 'message', 'help', 'error_message',
               'checkbox_ident', 'submit_value', 'select_id', 'select_text', 'select_tr_text', 'multi_id', 'multi_text',
-              'multi_tr_text', 'radio_id', 'radio_text', 'radio_tr_text']
-MESSAGE_KINDS = {'message', 'help', 'error_message', 'submit_value', 'select_tr_text', 'multi_tr_text', 'radio_tr_text'}
+              'multi_tr_text', 'radio_id', 'radio_text', 'radio_tr_text', 'message_label']
+FULL_KINDS = FORM_KINDS   # Defs.render_supported: all 19
+MESSAGE_KINDS = {'message', 'message_label', 'help', 'error_message', 'submit_value', 'select_tr_text', 'multi_tr_text', 'radio_tr_text'}
 ENT = {b'lt': b'<', b'gt': b'>', b'amp': b'&', b'quot': b'"', b'#39': b"'"}
 
 
@@ -153,8 +327,93 @@ def py_unescape(b):
     return bytes(out)
 
 
+ESC = {60: b'&lt;', 62: b'&gt;', 38: b'&amp;', 34: b'&quot;', 39: b'&#39;'}
+
+
+def py_encode(op, s):
+    """independent encoders (used for output lengths and for the prefix a failing sink must have received)"""
+    if op == 'esc':
+        return b''.join(ESC.get(ch, bytes([ch])) for ch in s)
+    if op == 'uenc':
+        return urllib.parse.quote_from_bytes(s, safe='').encode()
+    return base64.urlsafe_b64encode(s).rstrip(b'=')
+
+
+class _HtmlEvents(html.parser.HTMLParser):
+    """flat event list: ('s', tag, [(attr, value)...]) / ('e', tag) / ('d', text), adjacent text merged"""
+    def __init__(self):
+        super().__init__(convert_charrefs=True)
+        self.ev = []
+
+    def handle_starttag(self, tag, attrs):
+        self.ev.append(('s', tag, attrs))
+
+    def handle_endtag(self, tag):
+        self.ev.append(('e', tag))
+
+    def handle_data(self, d):
+        if self.ev and self.ev[-1][0] == 'd':
+            self.ev[-1] = ('d', self.ev[-1][1] + d)
+        else:
+            self.ev.append(('d', d))
+
+    def handle_comment(self, d):
+        self.ev.append(('c', d))
+
+    def handle_decl(self, d):
+        self.ev.append(('decl', d))
+
+    def handle_pi(self, d):
+        self.ev.append(('pi', d))
+
+
+PLACEHOLDER = 'ZqPLACEHOLDERqZ'
+
+
+def check_full_widget(kind, mode, payload, rendered, reference):
+    """parse the complete rendering and the rendering of the same widget with a harmless placeholder value with Python's
+    HTML parser: same elements, same attribute names, and every attribute value / text equals the reference with the
+    placeholder (which occurs exactly once) replaced by the payload"""
+    def events(b):
+        txt = b.decode('latin-1')
+        if kind == 'text_value_input':      # render_input(first part) alone leaves the tag open: close it for the parser
+            txt += ' >'
+        p = _HtmlEvents()
+        p.feed(txt)
+        p.close()
+        return p.ev
+    norm = lambda t: (t or '').replace('\r\n', '\n').replace('\r', '\n').replace('\x00', '\ufffd')
+    pl = payload.decode('latin-1')
+    a, r = events(rendered), events(reference)
+    if [(e[0], e[1] if e[0] in 'se' else None) for e in a] != [(e[0], e[1] if e[0] in 'se' else None) for e in r]:
+        # an empty payload makes an empty text node disappear: allowed only then
+        if not (pl == '' and [e for e in a if e[0] != 'd'] == [e for e in r if e[0] != 'd']):
+            return 'elements differ from the placeholder rendering: %s' % [(e[0], e[1]) for e in a if e[0] in 'se']
+        return None
+    seen = 0
+    for ea, er in zip(a, r):
+        if ea[0] == 's':
+            if [n for n, _ in ea[2]] != [n for n, _ in er[2]]:
+                return 'attributes of <%s>: %s instead of %s' % (ea[1], [n for n, _ in ea[2]], [n for n, _ in er[2]])
+            pairs = [(va, vr) for (_, va), (_, vr) in zip(ea[2], er[2])]
+        elif ea[0] == 'd':
+            pairs = [(ea[1], er[1])]
+        elif ea[0] == 'e':
+            pairs = []
+        else:
+            return 'comment/declaration in the rendering'
+        for va, vr in pairs:
+            seen += (vr or '').count(PLACEHOLDER)
+            if norm((vr or '').replace(PLACEHOLDER, pl)) != norm(va):
+                return 'value %r instead of %r' % (va, (vr or '').replace(PLACEHOLDER, pl))
+    if seen != 1:
+        return 'placeholder occurs %d times in the reference rendering' % seen
+    return None
+
+
 UNRES = set(b'ABCDEFGHIJKLMNOPQRSTUVWXYZabcdefghijklmnopqrstuvwxyz0123456789-_.~')
-B64 = set(b'ABCDEFGHIJKLMNOPQRSTUVWXYZabcdefghijklmnopqrstuvwxyz0123456789-_')
+B64STR = b'ABCDEFGHIJKLMNOPQRSTUVWXYZabcdefghijklmnopqrstuvwxyz0123456789-_'
+B64 = set(B64STR)
 
 
 def oracle(case, out):
@@ -166,7 +425,7 @@ def oracle(case, out):
     if len(o) < 2 or o[0] != op:
         return ('bad-output-' + op, 'unexpected harness answer ' + out[:200])
     if 'PATHS-DIFFER' in out:
-        return (op + '-output-paths-differ', 'the output paths (string/stream/streambuf/filter) disagree')
+        return (op + '-output-paths-differ', 'the output paths (string/stream/streambuf/filter; for udec: string, pointer range, pointer range followed by hex digits = read past the end) disagree')
     if 'OVERRUN' in out:
         return (op + '-writes-outside-buffer', 'pointer variant wrote a different number of bytes than the size function reports')
     if op == 'esc':
@@ -186,10 +445,38 @@ def oracle(case, out):
         else:
             if any(ch not in B64 for ch in r) or len(r) != (len(s) * 4 + 2) // 3 or base64.urlsafe_b64decode(r + b'=' * (-len(r) % 4)) != s:
                 return ('base64-filter-pieces', 'base64_urlencode filter over a value streamed in pieces %s: output does not decode to the value' % c[2])
+    elif op == 'pcsf':
+        s, r = unhex(c[4]), unhex(o[1])
+        room = int(c[2])
+        full = py_encode(c[1], s)
+        if len(r) != min(room, len(full)) or r.lower() != full[:len(r)].lower() or (c[1] != 'uenc' and r != full[:len(r)]):
+            return (c[1] + '-filter-failing-sink-not-prefix', 'sink with room for %d bytes did not receive exactly the first bytes of the filtered value' % room)
+        fits = '1' if len(full) <= room else '0'
+        if o[3] != 'rel=' + fits:
+            # known finding C15/2 for uenc: util::urlencode(b,e,streambuf&) always returns 0, so the filter buffer never sees the failure
+            return ('urlencode-streambuf-failure-not-reported' if c[1] == 'uenc' else c[1] + '-filterbuf-release-status', 'release() of the filter buffer reported %s but %d bytes had to go into %d' % (o[3], len(full), room))
+        if o[2] != 'st=' + fits:
+            # known finding C15/1 for esc and uenc: the failbit set by filterbuf::write is cleared by rdbuf() in release()
+            return ('filter-failing-sink-error-lost' if c[1] in ('esc', 'uenc') else 'base64-filter-failing-sink-status',
+                    'the sink failed while the %s filter was writing (%d bytes into room for %d) but the stream is in good state afterwards' % (c[1], len(full), room))
+    elif op == 'strf':
+        if unhex(o[1]) or o[2] != 'st=0':
+            return (c[1] + '-ostream-overload-writes-to-failed-stream', 'the std::ostream overload wrote to a stream that had already failed or cleared its state')
+    elif op == 'pcsb':
+        r = unhex(o[1])
+        if r or o[2] != 'st=0':
+            # known finding C15/1, same root cause: steal() re-seats the buffer with rdbuf(), which clears the error state
+            return ('filter-revives-failed-stream', 'a %s filter applied to a stream that had already failed wrote %d bytes and left the stream in good state' % (c[1], len(r)))
+    elif op == 'formfull':
+        why = check_full_widget(c[1], int(c[2]), unhex(c[3]), unhex(o[1]), unhex(o[2])) if len(o) == 3 else 'no rendering: ' + out[:100]
+        if why:
+            return ('form-widget-html-structure-' + c[1], 'complete widget HTML parsed by an independent parser: ' + why)
     elif op == 'form':
         if o[1] in ('NO-PLACEHOLDER', 'STRUCTURE-DIFFERS'):
             return ('form-widget-structure-' + c[1], 'rendering the widget with this value changes the markup around the value slot (value not confined to its slot): ' + out[:200])
         s, r = unhex(c[3]), unhex(o[1])
+        if len(o) < 3 or o[2] not in ('A', 'E'):
+            return ('form-widget-slot-context-' + c[1], 'widget slot %s is rendered neither inside a double-quoted attribute nor as element text (escape does not confine a value in any other context)' % c[1])
         if any(ch in r for ch in b'<>"\''):
             return ('form-widget-leaves-markup-' + c[1], 'widget slot %s rendered a value containing one of < > " \'' % c[1])
         if py_unescape(r) != s:
@@ -202,6 +489,14 @@ def oracle(case, out):
             return ('escape-stream-not-prefix', 'failing sink received something that is not a prefix of the escaped text')
         if ok == '1' and len(full) > room:
             return ('escape-stream-false-success', 'sink too small but success reported')
+    elif op == 'uencs':
+        s, r, ok = unhex(c[2]), unhex(o[1]), o[2]
+        room = int(c[1])
+        full = py_encode('uenc', s)
+        if len(r) != min(room, len(full)) or r.lower() != full[:len(r)].lower():
+            return ('urlencode-stream-not-prefix', 'failing sink received something that is not a prefix of the encoded text')
+        if (ok == '1') != (len(full) <= room):
+            return ('urlencode-streambuf-failure-not-reported', 'urlencode(begin,end,streambuf&) returned %s for %d bytes into a sink with room for %d' % ('0' if ok == '1' else '-1', len(full), room))
     elif op == 'uenc':
         s, r = unhex(c[1]), unhex(o[1])
         if urllib.parse.unquote_to_bytes(r) != s:
@@ -230,6 +525,8 @@ def oracle(case, out):
             return ('base64-size', 'encoded length differs from the exact formula')
         if base64.urlsafe_b64decode(r + b'=' * (-len(r) % 4)) != s:
             return ('base64-not-invertible', 'independent decoder does not recover the input')
+        if len(r) % 4 and B64STR.index(r[-1]) % (16 if len(r) % 4 == 2 else 4) != 0:
+            return ('base64-encode-noncanonical', 'the unused low bits of the last symbol are not zero (two different texts for the same value)')
     elif op in ('bdec', 'bdecp'):
         s = unhex(c[1])
         if o[1] == 'invalid':
@@ -245,6 +542,11 @@ def oracle(case, out):
             ref = base64.urlsafe_b64decode(s + b'A' * (-len(s) % 4))[:len(s) * 3 // 4]
             if ref != r:
                 return ('base64-decode-wrong', 'alphabet-only input decoded differently from the independent decoder')
+        if op == 'bdec':
+            # encode(decode s) == s exactly for the canonical strings (independent definition: alphabet, length, unused bits of the last symbol)
+            canon = all(ch in B64 for ch in s) and (len(s) % 4 == 0 or B64STR.index(s[-1]) % (16 if len(s) % 4 == 2 else 4) == 0)
+            if len(o) < 3 or o[2] != 'c=%d' % canon:
+                return ('base64-reencode-canonical', 'encode(decode(s))==s is %s but s is %scanonical' % (o[2:], '' if canon else 'not '))
     elif op == 'esz':
         n = int(c[1])
         if int(o[1]) != (n * 4 + 2) // 3:
@@ -265,7 +567,9 @@ def nontrivial(case, out):
     if h == '-':
         return False
     s = unhex(h)
-    if c[0] in ('esc', 'escs', 'form'):
+    if c[0] == 'uencs':
+        return True
+    if c[0] in ('esc', 'escs', 'form', 'formfull'):
         return any(ch in SPECIAL for ch in s)
     if c[0] == 'uenc':
         return any(ch not in UNRES for ch in s)
@@ -279,13 +583,24 @@ def classify(case, out):
     n = 0 if c[-1] == '-' else len(c[-1]) // 2
     if c[0] in ('esz', 'dsz'):
         return c[0]
-    if c[0] in ('pcs', 'form'):
+    if c[0] in ('pcs', 'form', 'formfull'):
+        return c[0] + ':' + c[1]
+    if c[0] == 'pcsf':
+        return 'pcsf:' + c[1] + (':sink-failed' if out.endswith('rel=0') else '')
+    if c[0] in ('pcsb', 'strf'):
         return c[0] + ':' + c[1]
     b = 'len0' if n == 0 else 'len1-2' if n <= 2 else 'len3' if n == 3 else 'len4-64' if n <= 64 else 'len65-1024' if n <= 1024 else 'len>1024'
-    return c[0] + ':' + b + (':invalid' if 'invalid' in out else '')
+    return c[0] + ':' + b + (':invalid' if 'invalid' in out else '') + (':noncanonical' if out.endswith('c=0') else '')
 
 
 def run(ctx):
+    os.makedirs(os.path.dirname(C15X_TU), exist_ok=True)
+    try:
+        tu = prep_tu(vlib.REPO)
+    except (PrepError, OSError) as e:
+        ctx.broke('pre-processor for the loop bodies failed (tie to source broken)', str(e))
+        tu = '#error C15 pre-processor failed\n'
+    vlib.write_if_changed(C15X_TU, tu)
     errs = vlib.gen_coq(GEN)
     for n, e in errs:
         ctx.broke('translator cxx2v failed on %s (tie to source broken)' % n, e)
@@ -293,10 +608,11 @@ def run(ctx):
     ctx.proof(res)
     ctx.coverage['trusted_base'] = [
         'Coq 8.16.1 kernel, vm_compute (sweeps); no native_compute',
-        'tools/cxx2v.py + clang 14 JSON AST (leaf functions regenerated from src/util.cpp, src/base64.cpp, private/http_protocol.h)',
-        'extraction: ExtrOcamlBasic only (Extract Inductive bool/option/unit/list/prod/sumbool/sumor, Extract Inlined Constant andb/orb/negb/fst/snd), OCaml 4.13.1',
-        'harness/C15_codecs.cpp (incl. cppcms::widgets rendering through form_context), ocaml/C15_driver.ml, checks/C15.py (generators, canonicalisation, oracles using Python html/urllib/base64)',
-        'hand model of the loops around the generated leafs (coq/C15/Defs.v)']
+        'tools/cxx2v.py + clang 14 JSON AST (leaf functions and loop bodies regenerated from src/util.cpp, src/base64.cpp, private/http_protocol.h)',
+        'extraction: ExtrOcamlBasic (Extract Inductive bool/option/unit/list/prod/sumbool/sumor, Extract Inlined Constant andb/orb/negb/fst/snd) + ExtrOcamlString (ascii -> char, string -> char list; only the HTML literals of the widget skeleton), OCaml 4.13.1',
+        'harness/C15_codecs.cpp (incl. cppcms::widgets rendering through form_context, bounded/1-byte test stream buffers), ocaml/C15_driver.ml, checks/C15.py (generators, oracles using Python html.parser/urllib/base64)',
+        'checks/C15.py prep_tu: textual rewrite of escape(streambuf)/urldecode/bencode/bdecode loop bodies into the cxx2v subset (exact occurrence counts; 3-line model of sscanf %x on two hex digits)',
+        'loop skeletons of coq/C15/LinkLoops.v (flat_map of a per-byte body; urldecode lookahead loop; 3/4-byte block loops) and, by correspondence only: escape_stream (failing sink), fb_run (filterbuf<_,128>), std::string wrappers, widget slot contexts']
     ctx.assumptions = ['signed arithmetic in translated leaf functions does not overflow (UB in C++)',
                        'char is signed 8-bit on this target (x86-64), as clang reports']
     exe, err = vlib.build_harness('C15_codecs', ['C15_codecs.cpp'])
@@ -311,11 +627,14 @@ def run(ctx):
     else:
         cases = vlib.corpus_cases('C15') + gen_cases(ctx)
     ctx.coverage['rule'] = ('cases: op + hex input. Exhaustive: all byte strings of length 0..2 through escape, urlencode, base64 encode and '
-                            'base64 decode; all sizes 0..1024 through the size functions; all strings of length<=4 over {%,+,0,a,F,g,0x80,space} '
-                            'through urldecode. Random (seeded): 3-byte blocks, independently encoded decoder inputs, malformed decoder inputs, '
-                            'markup-dense strings with a failing sink, strings up to 64 KiB. A case is non-trivial when the input is non-empty and '
+                            'base64 decode; all sizes 0..1024 through the size functions; all strings of length<=5 over {%,+,0,a,F,g,0x80,space} '
+                            'through urldecode. Exhaustive: every %XY (65536) through urldecode; all strings of length<=5 over that 8-byte set. Every last symbol x every middle symbol of 3-symbol base64 tails. Random (seeded): 3-byte blocks, independently encoded decoder inputs, malformed decoder inputs, '
+                            'markup-dense strings with a failing sink (escape and urlencode streambuf overloads), filters over values streamed in pieces around the 128-byte buffer '
+                            'with and without a sink that fails after room bytes (rooms around the output length / 128 / inside entities), filters on an already failed stream, '
+                            '19 widget slots x 4 render modes x payloads (slot content + slot context and complete HTML), strings up to 64 KiB. A case is non-trivial when the input is non-empty and '
                             'contains at least one byte the codec must transform (markup char / non-unreserved byte / % or +; any byte for base64); '
                             'distinct = distinct case lines.')
     ctx.coverage['exhaustive'] = False
-    ctx.coverage['exhaustive_parts'] = ['all strings of length 0..2 (65793) x {esc,uenc,benc,bdec}', 'sizes 0..1024 x {esz,dsz}']
+    ctx.coverage['exhaustive_parts'] = ['all strings of length 0..2 (65793) x {esc,uenc,benc,bdec}', 'sizes 0..1024 x {esz,dsz}',
+                                        'udec: % followed by every byte pair (65536)', 'udec: all strings of length<=5 over {%,+,0,a,F,g,0x80,space}']
     vlib.differential(ctx, cases, exe, mexe, oracle, nontrivial, classify)
